@@ -56,6 +56,9 @@ CHECKS = {
  "C12": dict(engine="simrt+refcodec+modelredis", cat="exploration", ref="DESIGN.md 5/C12",
    text="Seeded input search: logical values through EncodeDump/DecodeDump and the reference (Redis-semantics) decoder, loader payloads of every compact encoding through DecodeDump, the in-repo cupcake encoder, and files written by the tool's Encoder restored through a simulated restore run into a target model. Three of the four parts are pure functions (no scheduler involvement).",
    tech="seeded generation with reference codecs as oracle; deterministic simulation only for the file-through-restore part"),
+ "C06": dict(engine="simrt+simnet+modelredis", cat="exploration", ref="DESIGN.md 5/C06",
+   text="Seeded search over keyspaces built around the configured prefixes (prefixes/extensions, hash tags, checkpoint keys, the key 'lua'), database numbers that are string-prefixes of one another, slot lists and filter.lua, each pushed through full sync, incremental sync, restore mode and rump in simulated runs; per path and key the observed copy decision must equal the statement's predicate.",
+   tech="deterministic simulation of the four data paths against models; statement-derived filter predicate as oracle"),
  "C18": dict(engine="simrt", cat="exploration", ref="DESIGN.md 5/C18",
    text="Seeded search over writer/reader/closer scripts and lock-granularity interleavings of the real backlog ring against an absolute-offset log model (interval semantics for in-flight writes), with lost-wake-up analysis at quiescence.",
    tech="deterministic simulation: tape-driven baton scheduler over instrumented locks/conds + absolute-offset log model"),
